@@ -190,8 +190,10 @@ Theorem C02_remove_all_restores_exactness : forall n ops m ms,
 Proof. intros n ops m ms w. exact (thm_remove_all_restores false w m ms (reachable_inv_weak n ops)). Qed.
 Print Assumptions C02_remove_all_restores_exactness.
 
-(* Agent subclasses overriding remove() (three shapes: work first and super().remove() late; super().remove() first
-   and work afterwards; no super().remove() at all - the work being the construction of further agents).  They
+(* Agent subclasses overriding remove() (four shapes: work first and super().remove() late; super().remove() first
+   and work afterwards; no super().remove() at all - the work being the construction of further agents; and
+   an override that, after super().remove(), calls remove() of ANOTHER agent of its model if that one is still in
+   model.agents - with dynamic dispatch again, so chains of agents removing each other, cycles included).  They
    are part of every theorem above: hard references, agents_by_type, agent_types, ids, soundness/exactness of
    model.agents, independence and the projection hold for all histories in which agent.remove(), remove_all_agents
    and callbacks dispatch to such overrides; an agent whose override never reaches Agent.remove simply stays live.
@@ -265,8 +267,8 @@ Print Assumptions C02_source_first_id.
 
 Theorem C02_source_statement_order :
   gen_register_order = [RHard; RByType; RAll] /\ gen_deregister_order = [RHard; RByType; RAll] /\
-  gen_remove_suppresses_keyerror = true.
-Proof. exact (conj eq_refl (conj eq_refl eq_refl)). Qed.
+  gen_remove_suppresses_keyerror = true /\ gen_registry_skeleton_ok = true.
+Proof. exact (conj eq_refl (conj eq_refl (conj eq_refl eq_refl))). Qed.
 Print Assumptions C02_source_statement_order.
 
 (* ---------- non-vacuity: a history with two models, three classes, create_agents with a per-agent list,
@@ -327,3 +329,14 @@ Example C02_example_overrides :
     m_all m1 = [] /\ w_removed w = [2; 0] /\
     (forall k a, In k (m_hard m1) -> find_agent (w_born w) k = Some a -> ov_of (a_cls a) = None).
 Proof. vm_compute. eexists. eexists. repeat split; try reflexivity. intros k a []. Qed.
+
+(* an override removing another agent: agents 1 and 2 (class 8) name agents 0 and 1 as the ones to take along;
+   ONE remove() of agent 2 empties the model through the chain 2 -> 1 -> 0; agent 3 lives in model 1 and names an
+   agent of model 0: the guard `p.model is self.model` keeps the removal local *)
+Example C02_example_chain_removal :
+  let w := final (init 2) [Create 0 0 5; Create 0 8 0; Create 0 8 1; Create 1 8 0; Remove 2] in
+  map m_all (w_models w) = [[]; [3]] /\ w_removed w = [0; 1; 2] /\
+  evs_for 0 (trace (final (init 2) [Create 0 0 5; Create 0 8 0; Create 0 8 1; Create 1 8 0]) [Remove 2]) =
+    [EvRemove 2 8; EvRemove 1 8; EvRemove 0 0] /\
+  map m_all (w_models (final w [Remove 3])) = [[]; []].
+Proof. vm_compute. repeat split; reflexivity. Qed.
